@@ -278,7 +278,7 @@ func selectRows(sel string, rows []*Row) (ids []int, err error) {
 // random multi-method services
 
 var (
-	safeNames   = []string{"Foo", "Bar", "Baz", "Read", "Write", "Put", "Send", "Ping", "Echo", "List", "Commit", "Prepare", "Accept", "Lookup"}
+	safeNames   = []string{"Foo", "Bar", "Baz", "get_value", "Read", "Write", "Put", "Send", "Ping", "Echo", "List", "Commit", "Prepare", "Accept", "Lookup"}
 	hazardNames = []string{"Nodes", "Size", "Close", "Get", "And", "Except", "ID", "String", "Equal", "NodeIDs"}
 )
 
